@@ -366,7 +366,8 @@ Lim(t, c, m, d) == D(<<<<"cpu", S(c)>>, <<"disk", S(d)>>, <<"memory", S(m)>>, <<
 PartitionSpec == <<
   F("_id", <<S("p1"), S("_default")>>),
   F("cpu", <<S("300%"), S("0%"), N0>>),
-  F("data", <<D(<<<<"k", S("v")>>>>), D(<<>>), D(<<<<"a", I(1)>>, <<"b", L(<<S("x")>>)>>>>)>>),
+  F("data", <<D(<<<<"k", S("v")>>>>), D(<<>>), D(<<<<"a", I(1)>>, <<"b", L(<<S("x")>>)>>>>),
+              D(<<<<"n", D(<<<<"m", L(<<I(1), D(<<<<"z", S("")>>>>)>>)>>>>)>>>>)>>),
   F("disk", <<S("3G"), S("1024m")>>),
   F("down-threshold", <<I(5), I(0)>>),
   F("limits", <<L(<<Lim("gpu", "200%", "2G", "2048M")>>), L(<<>>),
@@ -438,8 +439,30 @@ AppSpec == <<
                                D(<<<<"endpoints", L(<<S("ssh"), S("http"), S("ssh")>>)>>, <<"pattern", S("proid.a*")>>>>)>>)>>>>)>>)
 >>
 
+(* Server and Cell: the other two classes with a free-form dict attribute    *)
+DataVs == <<D(<<<<"k", S("v")>>>>), D(<<>>), D(<<<<"a", I(1)>>, <<"b", L(<<S("x")>>)>>>>),
+            D(<<<<"n", D(<<<<"m", L(<<I(1), D(<<<<"z", S("")>>>>)>>)>>>>)>>>>)>>
+ServerSpec == <<
+  F("_id", <<S("host1.example.com")>>),
+  F("cell", <<S("c1")>>),
+  F("data", DataVs),
+  F("partition", <<S("p1"), S("_default"), N0>>),
+  F("traits", <<L(<<S("gpu"), S("ssd")>>), L(<<>>), L(<<S("x"), S("x")>>)>>)
+>>
+Mst(i, h) == D(<<<<"hostname", S(h)>>, <<"idx", I(i)>>, <<"zk-client-port", I(2181)>>>>)
+CellSpec == <<
+  F("_id", <<S("c1")>>),
+  F("data", DataVs),
+  F("location", <<S("na.east")>>),
+  F("masters", <<L(<<Mst(1, "m1.x")>>), L(<<>>), L(<<Mst(2, "m2.x"), Mst(1, "m1.x")>>)>>),
+  F("traits", <<L(<<S("gpu")>>), L(<<>>)>>),
+  F("version", <<S("1.0")>>)
+>>
+
 LdapDomain ==
-  {[schema |-> "partition", obj |-> o] : o \in ObjDomain(PartitionSpec)}
+  {[schema |-> "server", obj |-> o] : o \in ObjDomain(ServerSpec)}
+  \cup {[schema |-> "cell", obj |-> o] : o \in ObjDomain(CellSpec)}
+  \cup {[schema |-> "partition", obj |-> o] : o \in ObjDomain(PartitionSpec)}
   \cup {[schema |-> "cellalloc", obj |-> o] : o \in ObjDomain(CellAllocSpec)}
   \cup {[schema |-> "app", obj |-> o] : o \in ObjDomain(AppSpec)}
 
@@ -554,7 +577,7 @@ ObjMerge(v1, v2) ==
       k1 == {Pairs(v1.obj)[i][1] : i \in DOMAIN Pairs(v1.obj)}
       k2 == {Pairs(v2.obj)[i][1] : i \in DOMAIN Pairs(v2.obj)}
       over(k) == k \in k2 /\ (k = lkey \/ Val(v2.obj, k) # L(<<>>))
-      keys == (k1 \cup k2) \ (IF lkey \in k2 THEN {} ELSE {lkey})
+      keys == (k1 \cup {k \in k2 : over(k)}) \ (IF lkey \in k2 THEN {} ELSE {lkey})
   IN [schema |-> v1.schema,
       obj |-> D(SeqOfSet({<<k, IF over(k) THEN Val(v2.obj, k) ELSE Val(v1.obj, k)>> : k \in keys}))]
 
@@ -572,8 +595,10 @@ VsOf(spec, extra, i) == spec[i].vs \o (IF spec[i].k \in DOMAIN extra THEN extra[
 UpdPairs(spec, extra) ==
   UNION {{<<ObjSet(spec, spec[i].k, VsOf(spec, extra, i)[a]), ObjSet(spec, spec[i].k, VsOf(spec, extra, i)[b])>> :
             a \in DOMAIN VsOf(spec, extra, i), b \in DOMAIN VsOf(spec, extra, i)} : i \in DOMAIN spec}
-  \cup {<<ObjOf(spec, Keys(spec), NoAlt), ObjDrop(spec, k)>> : k \in Keys(spec)}
-  \cup {<<ObjDrop(spec, k), ObjOf(spec, Keys(spec), NoAlt)>> : k \in Keys(spec)}
+  \cup UNION {{<<ObjSet(spec, spec[i].k, VsOf(spec, extra, i)[a]), ObjDrop(spec, spec[i].k)>> :
+                  a \in DOMAIN VsOf(spec, extra, i)} : i \in DOMAIN spec}
+  \cup UNION {{<<ObjDrop(spec, spec[i].k), ObjSet(spec, spec[i].k, VsOf(spec, extra, i)[a])>> :
+                  a \in DOMAIN VsOf(spec, extra, i)} : i \in DOMAIN spec}
 
 PartitionUpd ==
   "_id" :> <<S("P1")>>
@@ -610,8 +635,13 @@ AppUpd ==
   @@ "vring" :> <<D(<<<<"cells", L(<<S("C1"), S("c2")>>)>>,
                      <<"rules", L(<<D(<<<<"endpoints", L(<<S("ssh"), S("http")>>)>>, <<"pattern", S("proid.*")>>>>)>>)>>>>)>>
 
+ServerUpd == "data" :> <<D(<<<<"K", S("v")>>>>)>>
+CellUpd == "data" :> <<D(<<<<"K", S("v")>>>>)>>
+
 LdapUpdDomain ==
-  {[schema |-> "partition", v1 |-> p[1], v2 |-> p[2]] : p \in UpdPairs(PartitionSpec, PartitionUpd)}
+  {[schema |-> "server", v1 |-> p[1], v2 |-> p[2]] : p \in UpdPairs(ServerSpec, ServerUpd)}
+  \cup {[schema |-> "cell", v1 |-> p[1], v2 |-> p[2]] : p \in UpdPairs(CellSpec, CellUpd)}
+  \cup {[schema |-> "partition", v1 |-> p[1], v2 |-> p[2]] : p \in UpdPairs(PartitionSpec, PartitionUpd)}
   \cup {[schema |-> "cellalloc", v1 |-> p[1], v2 |-> p[2]] : p \in UpdPairs(CellAllocSpec, CellAllocUpd)}
   \cup {[schema |-> "app", v1 |-> p[1], v2 |-> p[2]] : p \in UpdPairs(AppSpec, AppUpd)}
 ModelUpdDomain == {u \in LdapUpdDomain : u.schema \in {"partition", "cellalloc"}}
@@ -648,6 +678,15 @@ ListSigs(t, path) ==
            go(i) == IF i > Len(xs) THEN <<>> ELSE ListSigs(xs[i], path) \o go(i + 1)
        IN own \o go(1)
   ELSE <<>>
+
+(* FREE-FORM dict attributes (`data` of Partition, Server, Cell: schema type *)
+(* dict, stored as JSON).  A dict the object was written with -- the EMPTY  *)
+(* one included -- comes back equal: `data: {}` and "no data" are different *)
+(* objects and have different encodings ({} is stored as the text "{}").    *)
+DictKeys == {"data"}
+DictsKept(x, n) ==
+  \A key \in DictKeys :
+    (HasKey(x, key) /\ Val(x, key)[1] = "d") => (HasKey(n, key) /\ Val(n, key) = Val(x, key))
 
 CountIn(e, sq) == Cardinality({i \in DOMAIN sq : sq[i] = e})
 Lossless(x, n) ==
@@ -716,6 +755,7 @@ InvUpdate ==
         got == ModelFromEntry(a.schema, ModelUpdate(a, b))
     IN /\ got = ModelNormal(ObjMerge(a, b))
        /\ Complete(a, b) => got = ModelNormal(b)
+       /\ DictsKept(b.obj, got.obj)
 
 InvInjective ==
   fmt = "inj" =>
@@ -724,7 +764,8 @@ InvInjective ==
          IN Cardinality({<<n.schema, ModelToEntry(n)>> : n \in NF}) = Cardinality(NF)
     ELSE Cardinality({Enc(k, v) : v \in Domain(k)}) = Cardinality({Ident(k, v) : v \in Domain(k)})
 
-InvLossless == fmt = "ldapmodel" => Lossless(ValueAt.obj, ModelNormal(ValueAt).obj)
+InvLossless == fmt = "ldapmodel" => /\ Lossless(ValueAt.obj, ModelNormal(ValueAt).obj)
+                                      /\ DictsKept(ValueAt.obj, ModelNormal(ValueAt).obj)
 
 InvIdLen ==
   /\ fmt = "uniq" => Len(IdOfUnique(Enc(fmt, ValueAt))) = 13
